@@ -155,7 +155,24 @@ pub fn inputs_c18(r: &mut Rng, n: usize, _tier: &str, out: &mut dyn Write) {
             }
             16..=18 => writeln!(out, "to_unit {} {}", dstr(total(r)), u).unwrap(),
             20 => writeln!(out, "{} {}", r.pick(&["in_seconds", "from_seconds_u"]), u).unwrap(),
-            21..=27 => writeln!(out, "dmulf {} {}", dstr(total_10ky(r)), h(factor_f64(r))).unwrap(),
+            21 => {
+                // the product falls in the LAST representable century (between 32767 and 32768 centuries, where
+                // Duration::MAX = (32767, one century of ns) and a saturation test written in whole centuries is one century
+                // early: seeded change C18-7) or in the first one, or just beyond either bound; any operand up to 10 000 years
+                let d = total_10ky(r);
+                if d == 0 {
+                    continue;
+                }
+                let target = match r.below(4) {
+                    0 => DMAX - r.below(NPC as u64) as i128,
+                    1 => DMIN + r.below(NPC as u64) as i128,
+                    2 => DMAX - (r.below(3) as i128) * NPC - r.below(NPC as u64) as i128,
+                    _ => if r.chance(1, 2) { DMAX + r.below(NPC as u64) as i128 } else { DMIN - r.below(NPC as u64) as i128 },
+                };
+                let q = target as f64 / d as f64;
+                writeln!(out, "dmulf {} {}", dstr(d), h(q)).unwrap()
+            }
+            22..=27 => writeln!(out, "dmulf {} {}", dstr(total_10ky(r)), h(factor_f64(r))).unwrap(),
             32 => {
                 // a tiny duration times a huge factor whose product is still representable (or just not)
                 let lim = match r.below(3) { 0 => 3, 1 => 1000, _ => 20_000 };
